@@ -64,6 +64,9 @@ type BridgeSt struct {
 	NUsers int
 	// generator memory
 	Proposed map[string]bool
+	Flooded  map[string]bool
+	Raced    map[string]bool
+	Race     *raceSt
 	Evm      *EvmSt // extension state of the EVM engine
 }
 
@@ -223,6 +226,10 @@ func (BridgeEngine) GenConfig(rng *rand.Rand, prop string, tier string) RunConfi
 		rc.Weights["churn"] *= 2
 		rc.Knobs["boundary-stakes"] = "1"
 	case "C05", "C06", "C04":
+		if rng.IntN(3) == 0 {
+			rc.Weights["flood"] = 3 // more queued transfers of one token than a batch can take
+		}
+		rc.Weights["race2"] = 4                               // only chains with two bridged tokens run it
 		rc.Faults = removeStr(rc.Faults, "conflicting-claim") // a lying quorum invalidates what these oracles assume about the external chain
 		rc.Weights["send"] *= 2
 		rc.Weights["batch"] *= 2
@@ -259,7 +266,7 @@ func (e BridgeEngine) Init(r *Run) error {
 		return err
 	}
 	r.W = w
-	st := &BridgeSt{NUsers: r.Cfg.World.Users, Proposed: map[string]bool{}}
+	st := &BridgeSt{NUsers: r.Cfg.World.Users, Proposed: map[string]bool{}, Flooded: map[string]bool{}, Raced: map[string]bool{}}
 	for ci, c := range r.Cfg.World.Chains {
 		cs := &ChainSt{CI: ci, Name: c.Name, Cfg: c, Ext: NewExtChain(c.Name, c.GravityID)}
 		if h := r.Cfg.KnobInt("ext_start_height", 0); h > 0 {
@@ -775,6 +782,13 @@ func (e BridgeEngine) applyExt(r *Run, s *Step, o *Outcome) {
 				}
 			}
 		}
+	case "bogus_result":
+		// the external contract reports the result of a bridge call fxcore has no record of (fault:
+		// a misbehaving / re-deployed external contract); claimed and parked like any other event
+		if !ext.Inited {
+			return
+		}
+		ext.emit(&ExtEvent{Kind: "bridge_call_result", CallNonce: s.A.U64("nonce"), Success: s.A.Int("success") == 1, Cause: []byte{}, TxOrigin: w.Key("extuser", 0).Hex()})
 	case "bridge_call":
 		if !ext.Inited {
 			return
